@@ -453,6 +453,14 @@ func vfScenarios(tier string, faults bool) []*vfRouteScenario {
 		{IDs: []int64{10}, Tgt: []int{1}, High: 11},
 		{IDs: []int64{11}, Tgt: []int{1}, High: 12},
 	}}, 1, 1)
+	// the source's watermark advances beyond the last task batch; a source shard that is idle from the start
+	add("1x2-wm-advances", 1, 2, [][]vfBatch{{
+		{IDs: []int64{10}, Tgt: []int{1}, High: 11},
+		{IDs: []int64{11}, Tgt: []int{2}, High: 12},
+	}}, 1, 0)
+	out[len(out)-1].WMAdvance = 7
+	add("1x1-idle-source", 1, 1, [][]vfBatch{{}}, 1, 1)
+	out[len(out)-1].WMAdvance = 7
 	// two sources feeding the same target
 	if thorough {
 		add("2x1-shared-target", 2, 1, [][]vfBatch{
